@@ -62,8 +62,10 @@ def check_scripts(env, rep, prop, scripts, oracle, nontrivial=None):
         # the oracles attribute outputs to inputs by tick: two inputs at one tick (a scripted datagram and a rule's
         # reaction colliding) cannot be told apart, such a run is judged only for escaping exceptions -- except in
         # the scenarios that put several inputs into one callback / one tick on purpose
-        designed = any(e[0] == "N" or (e[0] == "S" and len(e) > 13) for e in script["events"])
-        v = "" if (res["same_tick_inputs"] and not designed) else oracle(res)
+        designed_ticks = {e[1] for e in script["events"] if e[0] == "N" or (e[0] == "S" and len(e) > 13)}
+        ticks = [int(c.split("@")[1].split(":")[0]) for c in res["concrete"]]
+        accidental = any(ticks.count(t) > 1 and t not in designed_ticks for t in set(ticks))
+        v = "" if accidental else oracle(res)
         if v:
             # a corpus script that documents a recorded finding names that finding's key itself
             rep.oracle_fail(case, v, key=script.get("finding_key") or (prop + ":" + v.split(":")[0]))
